@@ -81,7 +81,9 @@ def late_read(events, run, prev_nodes=None):
         p = prev_nodes.get(run["name"])
         if p and p.get("alive"):
             old_deps = set(p["deps"])
-    for (x, _, _, eff, pos) in run["reads"]:
+    # tracked reads and explicit track() / on(deps, ..) subscriptions alike
+    subs = [(x, eff, pos) for (x, _, _, eff, pos) in run["reads"]] + [(x, eff, pos) for (x, eff, pos) in run["tracks"]]
+    for (x, eff, pos) in sorted(subs, key=lambda t: t[2]):
         if eff and any(p > pos for p in later_runs.get(x, [])):
             if old_deps is not None and str(x) in old_deps:
                 continue
@@ -438,6 +440,11 @@ def glitch_failures(prog, steps):
                 elif kind == "selector":
                     p, n = prev.get(r["name"]), nodes.get(r["name"])
                     if p and n and p["alive"] and n["alive"] and p["value"] != n["value"]:
+                        fired.add(r["name"])
+                    # the final snapshot may show a NEW instance of the name (its owner re-ran later in the statement): a selector
+                    # also fired if some computation observed a value different from the one it had before the statement
+                    elif p and p["alive"] and any(x == r["name"] and v != p["value"] and pos > r["end"]
+                                                   for q in spans for (x, v, _, _, pos) in q["reads"]):
                         fired.add(r["name"])
         for r, d in zip(spans, depths):
             if d != 0:
